@@ -436,6 +436,47 @@ fn wrapped_forms(rep: &mut Report, x: &PV, y: &PV, plain: &[Option<bool>; 6]) {
             }
         }
     }
+    // (d) the comparison's result compared with a boolean literal, on either side: null is neither
+    for (k, op) in OPS.iter().enumerate() {
+        for (text, want) in [
+            (format!("(l {} r) == `true`", op), plain[k] == Some(true)),
+            (format!("(l {} r) == `false`", op), plain[k] == Some(false)),
+            (format!("`false` == (l {} r)", op), plain[k] == Some(false)),
+            (format!("(l {} r) != `true`", op), plain[k] != Some(true)),
+            (format!("(l {} r) == `null`", op), plain[k].is_none()),
+        ] {
+            rep.evaluations += 1;
+            match guarded(|| jmespath::compile(&text).and_then(|e| e.search(&input))) {
+                Ok(Ok(v)) if v.as_boolean() == Some(want) => rep.count("wrapped/result_vs_boolean_ok"),
+                other => rep.violation(
+                    "C10/comparison-result-compared-with-a-literal",
+                    json!({"l": x.text(), "r": y.text(), "expression": text, "plain_result": format!("{:?}", plain[k]), "expected": want, "got": format!("{:?}", other.map(|r| r.map(|v| v.to_string()).map_err(|e| e.to_string())))}),
+                ),
+            }
+        }
+    }
+    // (e) a number that is the RESULT of a call compared with r: as the same number written down would compare
+    if let PV::Num(_) = y {
+        for nlen in 0..4usize {
+            let d2 = json!({"xs": (0..nlen).collect::<Vec<usize>>(), "r": y.to_value(), "neg": -(nlen as i64)});
+            let in2 = rcvar_of(&d2);
+            for op in OPS.iter() {
+                let base = guarded(|| jmespath::compile(&format!("`{}` {} r", nlen, op)).and_then(|e| e.search(&in2))).ok().and_then(|r| r.ok()).map(|v| v.to_string());
+                for call in [format!("length(xs) {} r", op), format!("abs(neg) {} r", op), format!("to_number('{}') {} r", nlen, op), format!("length(xs) {} {}", op, lit)] {
+                    rep.evaluations += 1;
+                    let got = guarded(|| jmespath::compile(&call).and_then(|e| e.search(&in2))).ok().and_then(|r| r.ok()).map(|v| v.to_string());
+                    if got.is_some() && got == base {
+                        rep.count("wrapped/call_result_as_operand_ok");
+                    } else {
+                        rep.violation(
+                            "C10/call-result-compares-differently-from-the-same-number",
+                            json!({"r": y.text(), "expression": call, "the_number": nlen, "as_a_literal": format!("{:?}", base), "got": format!("{:?}", got)}),
+                        );
+                    }
+                }
+            }
+        }
+    }
     // (c) multi-select values whose members are the SAME nodes under different / equal names
     for (text, want) in [("{p: l} == {q: l}", false), ("{p: l} == {p: l}", true), ("{p: l} != {q: l}", true), ("[l] == [l]", true), ("[l, l] == [l]", false), ("{p: l, q: r} == {p: l, q: r}", true),
                          ("{p: l, q: r} == {p: r, q: l}", plain[0] == Some(true))] {
